@@ -144,36 +144,37 @@ theorem eval_list (p : Py) (hp : p.sort = some .stream) (L : Nat) (hL : p.len = 
     rw [List.getElem?_eq_none (by omega)]
     split <;> simp [h3]
 
+theorem gen_complete : TableComplete genInstalled := by
+  intro d dd h
+  exact optable_complete _ (lookup_mem _ h)
+
+/-- **converse of C01.1**: every expression the specification calls ill-typed (a dunder that is not one of
+the 35, wrong number of operands, an operand of an ignored class, a non-Stream receiver, `Stream(xs, c)`
+mixing iterables and scalars) is refused by the model — so model and specification agree on ALL
+expressions, not only on the well-typed ones. -/
+theorem eval_refuses (p : Py) (hp : p.sort = none) : ∃ e, evalPy genInstalled p = .error e :=
+  evalPy_refuses genInstalled optable_correct gen_complete spectable_shape.2.2.2.2.1 p hp
+
 /-- an unknown operator method is an AttributeError in the model (nothing else is installed) -/
 theorem eval_unknown (d : Name) (s o : Py) (it : Iter) (v : Val)
     (hs : evalPy genInstalled s = .ok (.iterable true it)) (ho : evalPy genInstalled o = .ok v)
     (hd : specLookup d = none) :
     evalPy genInstalled (.bin d s o) = .error .attributeError := by
-  have hl : genInstalled.lookup d = none := by
-    cases h : genInstalled.lookup d with
-    | none => rfl
-    | some dd =>
-      have hmem : (d, dd) ∈ genInstalled := by
-        have : ∀ (l : List (Name × Dunder)), l.lookup d = some dd → (d, dd) ∈ l := by
-          intro l
-          induction l with
-          | nil => intro h; simp [List.lookup] at h
-          | cons kv r ih =>
-            intro h
-            obtain ⟨k, w⟩ := kv
-            simp only [List.lookup] at h
-            split at h
-            · rename_i heq
-              have : d = k := by simpa using heq
-              subst this
-              have : w = dd := by simpa using h
-              subst this
-              exact List.mem_cons_self
-            · exact List.mem_cons_of_mem _ (ih h)
-        exact this _ h
-      have := optable_complete _ hmem
-      simp [hd] at this
+  have hl := lookup_none_of_spec_none gen_complete hd
   simp [evalPy, hs, ho, bind, Except.bind, asStream, callDunder, hl]
+
+/-- an operand of a class registered with `avoid_stream` makes every binary dunder return NotImplemented -/
+theorem eval_ignored (sp : DunderSpec) (hsp : sp ∈ specTable) (h2 : sp.arity = 2) (s : Py) (it : Iter) (c : Term)
+    (hs : evalPy genInstalled s = .ok (.iterable true it)) :
+    evalPy genInstalled (.bin sp.dname s (.ignored c)) = .error .notImplemented := by
+  have hlook := optable_correct sp hsp
+  simp only [evalPy, hs, bind, Except.bind, asStream, callDunder, hlook]
+  cases hbb : sp.dunder.builder with
+  | unary =>
+    simp [DunderSpec.dunder, DunderSpec.builder, h2] at hbb
+    cases hr : sp.reflected <;> simp [hr] at hbb
+  | binary => rfl
+  | rbinary => rfl
 
 /-! ### non-vacuity: the hypotheses are satisfiable on non-trivial expressions -/
 
@@ -198,6 +199,8 @@ example : ∃ it, evalPy genInstalled demo = .ok (.iterable true it) ∧
 example : (Py.bin n!"__lt__" (.stream1 (.scalar (.atom 1))) (.iterable 0 [])).len = .fin 0 := by decide
 /-- a comparison has no reflected form: ill-typed in the specification, AttributeError in the model -/
 example : (Py.bin n!"__rlt__" (.stream1 (.scalar (.atom 1))) (.scalar (.atom 2))).sort = none := by decide
+example : ∃ e, evalPy genInstalled (Py.bin n!"__rlt__" (.stream1 (.scalar (.atom 1))) (.scalar (.atom 2))) = .error e :=
+  eval_refuses _ (by decide)
 
 /-! ### C01.4 — broadcast functions (`elementwise`) -/
 
